@@ -4,6 +4,9 @@
 //   --mode shuffle    random FuncArgsAssignment cases: emit_prolog + emit_args_assignment (+ body + epilog),
 //                     --arch x64 runs them natively with a machine image; x86/a64 only assemble (Python checks the bytes)
 //   --mode interop    JIT callers (x86::Compiler invoke) <-> gcc-compiled C callees / C callers <-> JIT functions on the host
+//   --mode invoke     call sites for every target (x86-64, x86-32, AArch64 incl. Apple): a Compiler function of convention A that
+//                     loads values, invokes a callee of convention B and stores the results; compile-only, prints the bytes and
+//                     the invoke's FuncDetail (Python executes the bytes symbolically up to the call, over it, and to the return)
 //
 // Every mode prints JSON lines; the last one is the summary {"summary":1,...}.
 #include "vcommon.h"
@@ -847,6 +850,7 @@ static int mode_shuffle(const Args& args) {
     }
 
     // exhaust shape: stack-sourced values take the registers of the permutation pool that no register source maps to
+    Rng side(master.s ^ (idx * 0xA24BAED4963EE407ull) ^ 0x6D6B);
     for (auto& x : vals) {
       TypeId st_ = x.src.type_id();
       if (x.src.is_indirect()) continue;                       // not supported by the API (documented)
@@ -880,6 +884,18 @@ static int mode_shuffle(const Args& args) {
         if (TypeUtils::is_int(st_) && (sz == 4 || sz == 8)) { g = 1; dtype = sz == 4 ? TypeId::kInt32x1 : TypeId::kInt64x1; }
         else if (st_ == TypeId::kFloat32) { g = 0; dtype = TypeId::kUInt32; }
         else if (st_ == TypeId::kFloat64 && arch == Arch::kX64) { g = 0; dtype = TypeId::kUInt64; }
+      }
+      // stack sources loaded into mask (kmovb/w/d/q k, [mem]) and MMX (movd/movq mm, [mem]) registers; FuncDetail never produces such
+      // sources, so these are the only way the destinations are reached (decided on a side stream: the other cases stay what they were)
+      else if (!src_is_reg && is_x86 && !dt.second && side.chance(1, 7)) {
+        uint32_t sz = TypeUtils::size_of(st_);
+        bool to_mask = side.chance(1, 2);
+        if (to_mask && TypeUtils::is_int(st_) && (!exec || g_has_avx512)) {
+          g = 2; dtype = sz == 1 ? TypeId::kMask8 : sz == 2 ? TypeId::kMask16 : sz == 4 ? TypeId::kMask32 : TypeId::kMask64;
+        }
+        else if (!to_mask && (sz == 4 || sz == 8) && !TypeUtils::is_vec(st_)) {
+          g = 3; dtype = sz == 4 ? TypeId::kMmx32 : TypeId::kMmx64;
+        }
       }
       int id = -1;
       if (src_is_reg) {
@@ -1302,6 +1318,7 @@ static int mode_shuffle(const Args& args) {
 }
 
 int mode_interop(const Args& args);
+int mode_invoke(const Args& args);
 
 int main(int argc, char** argv) {
   Args args(argc, argv);
@@ -1310,6 +1327,7 @@ int main(int argc, char** argv) {
   if (mode == "classify") return mode_classify();
   if (mode == "shuffle") return mode_shuffle(args);
   if (mode == "interop") return mode_interop(args);
+  if (mode == "invoke") return mode_invoke(args);
   fprintf(stderr, "unknown mode\n");
   return 3;
 }
@@ -1349,6 +1367,31 @@ alignas(64) static uint8_t g_in[32][64];     // values handed to the callee (by 
 alignas(64) static uint8_t g_jit_rec[32][64];// what a JIT callee received
 alignas(64) static uint8_t g_retval[64];     // the value the callee must return
 alignas(64) static uint8_t g_retout[64];     // the value the caller saw
+
+alignas(64) static uint8_t g_live[32][64];    // argument values a JIT caller stores again after the call (they are live across it)
+static volatile uint32_t g_helper_calls = 0;  // how often a clobber helper ran
+
+// Helpers a JIT callee invokes in the middle of its body: they change every register their own convention lets a callee change.
+extern "C" __attribute__((sysv_abi, noinline)) void c06_clobber_sysv(void) {
+  g_helper_calls = g_helper_calls + 1;
+  __asm__ volatile(
+    "movabs $0x5A5AC06C065A5A5A, %%rax\n\tmov %%rax, %%rcx\n\tmov %%rax, %%rdx\n\tmov %%rax, %%rsi\n\tmov %%rax, %%rdi\n\t"
+    "mov %%rax, %%r8\n\tmov %%rax, %%r9\n\tmov %%rax, %%r10\n\tmov %%rax, %%r11\n\t"
+    "movq %%rax, %%xmm0\n\tpunpcklqdq %%xmm0, %%xmm0\n\t"
+    "movdqa %%xmm0, %%xmm1\n\tmovdqa %%xmm0, %%xmm2\n\tmovdqa %%xmm0, %%xmm3\n\tmovdqa %%xmm0, %%xmm4\n\tmovdqa %%xmm0, %%xmm5\n\t"
+    "movdqa %%xmm0, %%xmm6\n\tmovdqa %%xmm0, %%xmm7\n\tmovdqa %%xmm0, %%xmm8\n\tmovdqa %%xmm0, %%xmm9\n\tmovdqa %%xmm0, %%xmm10\n\t"
+    "movdqa %%xmm0, %%xmm11\n\tmovdqa %%xmm0, %%xmm12\n\tmovdqa %%xmm0, %%xmm13\n\tmovdqa %%xmm0, %%xmm14\n\tmovdqa %%xmm0, %%xmm15\n\t"
+    : : : "rax", "rcx", "rdx", "rsi", "rdi", "r8", "r9", "r10", "r11", "xmm0", "xmm1", "xmm2", "xmm3", "xmm4", "xmm5", "xmm6", "xmm7",
+          "xmm8", "xmm9", "xmm10", "xmm11", "xmm12", "xmm13", "xmm14", "xmm15", "memory", "cc");
+}
+extern "C" __attribute__((ms_abi, noinline)) void c06_clobber_ms(void) {
+  g_helper_calls = g_helper_calls + 1;
+  __asm__ volatile(
+    "movabs $0x3C3CC06C063C3C3C, %%rax\n\tmov %%rax, %%rcx\n\tmov %%rax, %%rdx\n\tmov %%rax, %%r8\n\tmov %%rax, %%r9\n\tmov %%rax, %%r10\n\tmov %%rax, %%r11\n\t"
+    "movq %%rax, %%xmm0\n\tpunpcklqdq %%xmm0, %%xmm0\n\t"
+    "movdqa %%xmm0, %%xmm1\n\tmovdqa %%xmm0, %%xmm2\n\tmovdqa %%xmm0, %%xmm3\n\tmovdqa %%xmm0, %%xmm4\n\tmovdqa %%xmm0, %%xmm5\n\t"
+    : : : "rax", "rcx", "rdx", "r8", "r9", "r10", "r11", "xmm0", "xmm1", "xmm2", "xmm3", "xmm4", "xmm5", "memory", "cc");
+}
 
 template<typename T> static inline void rec_one(const T& v) {
   if (g_cal.n < 32) { memcpy(g_cal.data[g_cal.n], &v, sizeof(T)); g_cal.size[g_cal.n] = sizeof(T); }
@@ -1513,6 +1556,8 @@ static void register_sigs() {
 struct IoStats {
   uint64_t calls = 0, built = 0, rejected = 0;
   uint64_t guard_calls = 0, guard_regs = 0, guard_funcs = 0;
+  uint64_t cross_calls = 0, live_values = 0, helper_runs = 0;
+  std::map<std::string, uint64_t> built_by;
   std::map<std::string, uint64_t> rejects;
   std::vector<std::string> violations;
   std::set<std::string> vkeys;
@@ -1596,7 +1641,10 @@ static void emit_store(x86::Compiler& cc, const Reg& r, TypeId t, const x86::Gp&
 
 // A function with signature `sig` that stores every argument to g_jit_rec[i] and returns g_retval.
 // unchecked[i] is set for arguments the public API cannot bind (passed by reference).
-static FuncNode* emit_callee(x86::Compiler& cc, FuncNode* fn, const FuncSignature& sig, std::vector<bool>& unchecked) {
+// helper: 0 none, 1 invoke c06_clobber_sysv (SysV), 2 invoke c06_clobber_ms (Microsoft x64) between the stores of the arguments:
+// the function then contains a call of another convention; what that call may change and the function's own convention preserves
+// must be saved by the function's frame, and the arguments not stored yet are live across the call.
+static FuncNode* emit_callee(x86::Compiler& cc, FuncNode* fn, const FuncSignature& sig, std::vector<bool>& unchecked, int helper = 0) {
   bool avx = sig_needs_avx(sig);
   cc.add_func(fn);
   if (avx) { fn->frame().set_avx_enabled(); if (g_has_avx512) fn->frame().set_avx512_enabled(); }
@@ -1610,7 +1658,16 @@ static FuncNode* emit_callee(x86::Compiler& cc, FuncNode* fn, const FuncSignatur
   }
   x86::Gp base = cc.new_gp_ptr("base");
   cc.mov(base, imm(uint64_t(uintptr_t(g_jit_rec))));
-  for (uint32_t i = 0; i < sig.arg_count(); i++)
+  uint32_t split = helper ? sig.arg_count() / 2 : sig.arg_count();
+  for (uint32_t i = 0; i < split; i++)
+    if (!unchecked[i]) emit_store(cc, regs[i], sig.arg(i), base, int32_t(64 * i), avx);
+  if (helper) {
+    InvokeNode* hinv = nullptr;
+    FuncSignature hs(helper == 1 ? CallConvId::kX64SystemV : CallConvId::kX64Windows);
+    hs.set_ret(TypeId::kVoid);
+    cc.invoke_(Out(hinv), imm(uint64_t(uintptr_t(helper == 1 ? (void*)&c06_clobber_sysv : (void*)&c06_clobber_ms))), hs);
+  }
+  for (uint32_t i = split; i < sig.arg_count(); i++)
     if (!unchecked[i]) emit_store(cc, regs[i], sig.arg(i), base, int32_t(64 * i), avx);
   if (sig.ret() != TypeId::kVoid) {
     Reg r = new_reg_for(cc, sig.ret());
@@ -1624,7 +1681,9 @@ static FuncNode* emit_callee(x86::Compiler& cc, FuncNode* fn, const FuncSignatur
 }
 
 // void caller(void): loads g_in[i], invokes `target` with `sig`, stores the return value to g_retout.
-static FuncNode* emit_caller(x86::Compiler& cc, const FuncSignature& sig, const Operand& target) {
+// live_after: every argument register is stored to g_live[i] after the call (so it is live across the call: the allocator has to keep
+// it where the callee's convention leaves it alone, or spill it), through the pointer that was loaded before the call
+static FuncNode* emit_caller(x86::Compiler& cc, const FuncSignature& sig, const Operand& target_, bool live_after = false, bool target_in_reg = false) {
   bool avx = sig_needs_avx(sig);
   FuncNode* fn = cc.add_func(FuncSignature::build<void>());
   if (avx) { fn->frame().set_avx_enabled(); if (g_has_avx512) fn->frame().set_avx512_enabled(); }
@@ -1637,6 +1696,12 @@ static FuncNode* emit_caller(x86::Compiler& cc, const FuncSignature& sig, const 
     regs.push_back(r);
   }
   InvokeNode* inv = nullptr;
+  Operand target = target_;
+  if (target_in_reg && target_.is_imm()) {
+    x86::Gp t = cc.new_gp_ptr("target");
+    cc.mov(t, target_.as<Imm>());
+    target = t;
+  }
   cc.invoke_(Out(inv), target, sig);
   if (inv) {
     for (uint32_t i = 0; i < sig.arg_count(); i++) inv->set_arg(i, regs[i]);
@@ -1646,6 +1711,10 @@ static FuncNode* emit_caller(x86::Compiler& cc, const FuncSignature& sig, const 
       x86::Gp b2 = cc.new_gp_ptr("b2");
       cc.mov(b2, imm(uint64_t(uintptr_t(g_retout))));
       emit_store(cc, r, sig.ret(), b2, 0, avx);
+    }
+    if (live_after) {
+      int64_t delta = int64_t(uintptr_t(g_live)) - int64_t(uintptr_t(g_in));
+      for (uint32_t i = 0; i < sig.arg_count(); i++) emit_store(cc, regs[i], sig.arg(i), base, int32_t(delta + 64 * i), avx);
     }
   }
   cc.ret();
@@ -1666,6 +1735,7 @@ static void fill_values(Rng& rng, const FuncSignature& sig) {
     if (TypeUtils::is_int(sig.arg(i)) && rng.chance(1, 2)) g_in[i][TypeUtils::size_of(sig.arg(i)) - 1] |= 0x80;
   memset(g_retout, 0xEE, sizeof g_retout);
   memset(g_jit_rec, 0xEE, sizeof g_jit_rec);
+  memset(g_live, 0xEE, sizeof g_live);
   memset(&g_cal, 0xEE, sizeof g_cal);
   g_cal.n = 0xFFFFFFFFu;
 }
@@ -1704,6 +1774,46 @@ static void guard_judge(IoStats& st, int w, const std::string& key_prefix, const
   }
   if (gs.sp_after != gs.sp_before)
     io_violation(st, key_prefix + ":stack-pointer-not-restored", text + ": rsp after the return differs from rsp before the call by " + std::to_string((long long)(gs.sp_after - gs.sp_before)));
+}
+
+// A refused function (Compiler::finalize() error) is keyed by what in the signature explains it
+static std::string refusal_feature(const FuncSignature& sig, const Environment& env) {
+  FuncDetail fd;
+  if (fd.init(sig, env) != Error::kOk) return "signature-rejected";
+  std::string ind_stack, ind_reg;
+  for (uint32_t a = 0; a < fd.arg_count(); a++)
+    for (uint32_t v = 0; v < Globals::kMaxValuePack; v++) {
+      const FuncValue& fv = fd.arg(a, v);
+      if (!fv) break;
+      if (!fv.is_assigned()) return "unassigned-argument:" + cls_of(sig.arg(a));
+      if (fv.is_indirect() && fv.is_stack()) ind_stack = "by-reference-vector-on-stack";
+      else if (fv.is_indirect()) ind_reg = "by-reference-vector-in-register";
+    }
+  if (!ind_stack.empty()) return ind_stack;
+  if (!ind_reg.empty()) return ind_reg;
+  if (sig.has_var_args()) return "variadic";
+  return "plain-signature";
+}
+
+static void io_refused(IoStats& st, const std::string& who, const std::string& conv, const FuncSignature& sig, const Environment& env, Error err, const std::string& text) {
+  st.rejected++;
+  std::string feat = refusal_feature(sig, env);
+  st.rejects[who + ":" + conv + ":" + err_name(err) + ":" + feat]++;
+  if (st.samples.size() < 10) st.samples.push_back("rejected " + who + " " + text + ": " + err_name(err));
+  io_violation(st, "interop:" + conv + ":" + who + ":refused:" + feat,
+               "Compiler::finalize() returned " + std::string(err_name(err)) + " for a " + who + " of the valid signature " + text + " (what in the signature explains it: " + feat + ")");
+}
+
+static void judge_live(IoStats& st, const FuncSignature& sig, const std::string& key_prefix, const std::string& text) {
+  for (uint32_t i = 0; i < sig.arg_count(); i++) {
+    uint32_t sz = TypeUtils::size_of(sig.arg(i));
+    st.live_values++;
+    if (memcmp(g_live[i], g_in[i], sz) != 0) {
+      io_violation(st, key_prefix + ":value-live-across-call-lost:" + cls_of(sig.arg(i)),
+                   text + ": argument " + std::to_string(i) + " (" + type_name(sig.arg(i)) + ") is used again after the call; it was " + hexstr(g_in[i], sz) + " before and " + hexstr(g_live[i], sz) + " after the call");
+      break;
+    }
+  }
 }
 
 struct CallCtx { void (*fn)(void*); void* arg; };
@@ -1778,17 +1888,16 @@ int mode_interop(const Args& args) {
         code.init(rt.environment(), rt.cpu_features());
         x86::Compiler cc(&code);
         const bool watch_al = is_va && cv == 0 && g_al_thunk;
-        emit_caller(cc, sig, imm(uint64_t(uintptr_t(watch_al ? g_al_thunk : e.c_callee[cv]))));
+        // variants of the caller: argument values used again after the call; the call target held in a register
+        const bool live = ((si + cv) & 1) != 0, treg = ((si + cv) & 2) != 0;
+        emit_caller(cc, sig, imm(uint64_t(uintptr_t(watch_al ? g_al_thunk : e.c_callee[cv]))), live, treg);
         Error err = cc.finalize();
         void* fn = nullptr;
         if (err == Error::kOk) err = rt._add(&fn, &code);
-        if (err != Error::kOk) {
-          st.rejected++;
-          st.rejects[std::string("caller:") + conv_names[cv] + ":" + err_name(err)]++;
-          if (st.samples.size() < 6) st.samples.push_back("rejected caller " + text + ": " + err_name(err));
-        }
+        if (err != Error::kOk) io_refused(st, "jit-caller", conv_names[cv] + vk, sig, rt.environment(), err, text);
         else {
           st.built++;
+          st.built_by[std::string("jit-caller:") + conv_names[cv] + vk + (live ? ":live" : "") + (treg ? ":target-in-register" : "")]++;
           for (uint64_t r = 0; r < reps; r++) {
             fill_values(rng, sig);
             g_thunk_target = e.c_callee[cv];
@@ -1807,7 +1916,7 @@ int mode_interop(const Args& args) {
                              " (AL must be an upper bound of the number of vector registers used; a callee that trusts it does not save the others)");
               else if (e.expect_al >= 0 && int(al) > e.expect_al) st.rejects["note:al-larger-than-compilers"]++;
             }
-            if (sg) { io_violation(st, std::string("interop:") + conv_names[cv] + vk + ":jit-caller:crash", "JIT caller of C callee " + text + " crashed with signal " + std::to_string(sg)); break; }
+            if (sg) { io_violation(st, std::string("interop:") + conv_names[cv] + vk + ":jit-caller:crash" + (treg ? ":target-in-register" : ""), "JIT caller of C callee " + text + (treg ? " (call target held in a register)" : "") + " crashed with signal " + std::to_string(sg)); break; }
             if (g_cal.n != sig.arg_count()) { io_violation(st, std::string("interop:") + conv_names[cv] + vk + ":jit-caller:callee-not-reached", "C callee " + text + " was not entered"); break; }
             for (uint32_t i = 0; i < sig.arg_count(); i++) {
               uint32_t sz = TypeUtils::size_of(sig.arg(i));
@@ -1823,6 +1932,7 @@ int mode_interop(const Args& args) {
                 io_violation(st, std::string("interop:") + conv_names[cv] + vk + ":jit-caller:ret:" + cls_of(sig.ret()),
                              "JIT caller -> C callee " + text + ": callee returned " + hexstr(g_retval, sz) + ", caller saw " + hexstr(g_retout, sz));
             }
+            if (live) judge_live(st, sig, std::string("interop:") + conv_names[cv] + vk + ":jit-caller", "JIT caller -> C callee " + text);
           }
           rt._release(fn);
         }
@@ -1836,24 +1946,30 @@ int mode_interop(const Args& args) {
         std::vector<bool> unchecked;
         FuncNode* node = nullptr;
         Error err = cc.new_func_node(Out(node), sig);
-        if (err == Error::kOk) emit_callee(cc, node, sig, unchecked);
+        // every other function calls, in the middle of its body, a helper of the *other* convention that changes every register that
+        // convention lets it change: a Microsoft x64 function calling a SysV function must save rsi, rdi and xmm6-xmm15 itself
+        const int helper = (si & 1) ? 0 : (cv == 1 ? 1 : 2);
+        if (err == Error::kOk) emit_callee(cc, node, sig, unchecked, helper);
         if (err == Error::kOk) err = cc.finalize();
         void* fn = nullptr;
         if (err == Error::kOk) err = rt._add(&fn, &code);
-        if (err != Error::kOk) {
-          st.rejected++;
-          st.rejects[std::string("callee:") + conv_names[cv] + ":" + err_name(err)]++;
-          if (st.samples.size() < 6) st.samples.push_back("rejected callee " + text + ": " + err_name(err));
-        }
+        if (err != Error::kOk) io_refused(st, "jit-callee", conv_names[cv], sig, rt.environment(), err, text);
         else {
           st.built++;
+          st.built_by[std::string("jit-callee:") + conv_names[cv] + (helper == 1 ? ":calls-sysv" : helper == 2 ? ":calls-win64" : "")]++;
           for (uint64_t r = 0; r < reps; r++) {
             fill_values(rng, sig);
+            uint32_t helper_before = g_helper_calls;
             // gcc-compiled caller -> guard (same convention as the callee) -> JIT function
             CallCtx ctx{e.c_caller[cv], guard_arm(fn, cv)};
             int sg = run_guarded(call_ctx, &ctx);
             st.calls++;
-            if (!sg) guard_judge(st, cv, std::string("interop:") + conv_names[cv] + ":jit-callee", "C caller -> JIT function " + text);
+            if (!sg) guard_judge(st, cv, std::string("interop:") + conv_names[cv] + ":jit-callee" + (helper == 1 ? ":calls-sysv" : ""), "C caller -> JIT function " + std::string(helper ? "(that itself calls a function of the other convention) " : "") + text);
+            if (!sg && helper) {
+              st.cross_calls++;
+              if (g_helper_calls != helper_before + 1) io_violation(st, std::string("interop:") + conv_names[cv] + ":jit-callee:helper-not-called-once", "JIT function " + text + ": the helper it invokes ran " + std::to_string(g_helper_calls - helper_before) + " times");
+              else st.helper_runs++;
+            }
             if (sg) { io_violation(st, std::string("interop:") + conv_names[cv] + ":jit-callee:crash", "C caller of JIT function " + text + " crashed with signal " + std::to_string(sg)); break; }
             for (uint32_t i = 0; i < sig.arg_count(); i++) {
               if (unchecked[i]) continue;
@@ -1887,7 +2003,8 @@ int mode_interop(const Args& args) {
                                   TypeId::kFloat32, TypeId::kFloat64, TypeId::kFloat32x4, TypeId::kInt32x4, TypeId::kFloat64x2, TypeId::kInt32, TypeId::kInt64,
                                   TypeId::kFloat32x8, TypeId::kMmx64};
     uint32_t n = uint32_t(r2.range(1, 20));
-    uint32_t npool = g_has_avx ? 17 : 15;
+    // MMX arguments get no location from FuncDetail (recorded finding), such pairs are refused: one signature in five may contain them
+    uint32_t npool = g_has_avx ? ((li % 5) == 0 ? 17 : 16) : 15;
     for (uint32_t i = 0; i < n; i++) sig.add_arg(pool[r2.below(npool)]);
     static const TypeId rets[] = {TypeId::kVoid, TypeId::kInt32, TypeId::kInt64, TypeId::kFloat32, TypeId::kFloat64, TypeId::kFloat32x4};
     sig.set_ret(rets[r2.below(6)]);
@@ -1900,22 +2017,26 @@ int mode_interop(const Args& args) {
     Error err = cc.new_func_node(Out(callee), sig);
     std::vector<bool> unchecked;
     FuncNode* caller = nullptr;
+    // the caller uses its argument values again after the call (they stay in registers the light-call convention preserves), the callee
+    // calls a SysV helper that changes every SysV-volatile register: the callee's frame must save what its own convention preserves
+    const bool live = (li % 2) == 0;
+    const int helper = (li % 3) != 2 ? 1 : 0;
     if (err == Error::kOk) {
-      caller = emit_caller(cc, sig, callee->label());
-      emit_callee(cc, callee, sig, unchecked);
+      caller = emit_caller(cc, sig, callee->label(), live);
+      emit_callee(cc, callee, sig, unchecked, helper);
       err = cc.finalize();
     }
     void* base = nullptr;
     if (err == Error::kOk) err = rt._add(&base, &code);
     if (err != Error::kOk) {
-      st.rejected++;
-      st.rejects[std::string("light:") + err_name(err)]++;
-      if (st.samples.size() < 10) st.samples.push_back("rejected " + text + ": " + err_name(err));
+      io_refused(st, "pair", "lightcall", sig, rt.environment(), err, text);
       continue;
     }
     st.built++;
+    st.built_by[std::string("lightcall") + (live ? ":live" : "") + (helper ? ":calls-sysv" : "")]++;
     void* fn = (uint8_t*)base + code.label_offset_from_base(caller->label());
     fill_values(r2, sig);
+    uint32_t helper_before = g_helper_calls;
     CallCtx ctx{call_void_fn, guard_arm(fn, 0)};
     int sg = run_guarded(call_ctx, &ctx);
     st.calls++;
@@ -1936,13 +2057,25 @@ int mode_interop(const Args& args) {
         if (memcmp(g_retout, g_retval, sz) != 0)
           io_violation(st, "interop:lightcall:ret:" + cls_of(sig.ret()), "light-call " + text + ": callee returned " + hexstr(g_retval, sz) + ", caller saw " + hexstr(g_retout, sz));
       }
+      if (live) judge_live(st, sig, std::string("interop:lightcall") + (helper ? ":callee-calls-sysv" : ""), "light-call " + text + (helper ? " (the callee calls a SysV function that changes every volatile register)" : ""));
+      if (helper) {
+        st.cross_calls++;
+        if (g_helper_calls == helper_before + 1) st.helper_runs++;
+        else io_violation(st, "interop:lightcall:helper-not-called-once", "light-call " + text + ": the helper the callee invokes ran " + std::to_string(g_helper_calls - helper_before) + " times");
+      }
     }
     rt._release(base);
   }
 
   std::string o = "{\"summary\":1,\"mode\":\"interop\",\"signatures\":" + std::to_string(g_sigs.size()) + ",\"calls\":" + std::to_string(st.calls) +
                   ",\"light_calls\":" + std::to_string(light_calls) + ",\"built\":" + std::to_string(st.built) + ",\"rejected\":" + std::to_string(st.rejected) +
-                  ",\"guard_calls\":" + std::to_string(st.guard_calls) + ",\"guard_regs\":" + std::to_string(st.guard_regs) + ",\"rejects\":{";
+                  ",\"guard_calls\":" + std::to_string(st.guard_calls) + ",\"guard_regs\":" + std::to_string(st.guard_regs) +
+                  ",\"cross_calls\":" + std::to_string(st.cross_calls) + ",\"helper_runs\":" + std::to_string(st.helper_runs) + ",\"live_values\":" + std::to_string(st.live_values) + ",\"built_by\":{";
+  {
+    bool f0 = true;
+    for (auto& kv : st.built_by) { if (!f0) o += ","; f0 = false; o += jstr(kv.first) + ":" + std::to_string(kv.second); }
+  }
+  o += "},\"rejects\":{";
   bool f = true;
   for (auto& kv : st.rejects) { if (!f) o += ","; f = false; o += jstr(kv.first) + ":" + std::to_string(kv.second); }
   o += "},\"samples\":[";
@@ -1950,6 +2083,401 @@ int mode_interop(const Args& args) {
   o += "],\"violations\":[";
   for (size_t i = 0; i < st.violations.size(); i++) { if (i) o += ","; o += st.violations[i]; }
   o += "]}";
+  emit_line(o);
+  return 0;
+}
+
+// ------------------------------------------------------------------------------------------------
+// Mode: invoke (all targets, compile-only): call-site marshalling, return-value binding, values live across the call
+// ------------------------------------------------------------------------------------------------
+//
+//   void caller(uintptr in, uintptr out)           [convention A of the target]
+//     v(i,k) = load in[64*i + byte offset of pack value k]      (or an immediate operand)
+//     r(k)   = invoke target(v...)                 [convention B, signature under test]
+//     store r(k) -> out[byte offset of k];  store some v(i,k) -> out[64 + 64*i + ...]   (those are live across the call)
+//
+// The driver prints the bytes of the whole function, the invoke's FuncDetail as it is after finalize() (by-reference vectors
+// extend its stack area), the caller's own argument locations and its frame facts. Nothing is executed here.
+
+struct InvVal {
+  uint32_t arg, vi, off;      // argument index, pack index, byte offset inside the argument
+  TypeId t;                   // type of the pack value (FuncDetail's)
+  bool is_imm = false;
+  uint64_t imm = 0;
+  bool live = false;          // stored again after the call
+  Reg reg;
+};
+
+struct X86Inv {
+  typedef x86::Compiler CC;
+  typedef x86::Gp GpT;
+  static GpT new_ptr(CC& cc) { return cc.new_gp_ptr(); }
+  static Reg new_val(CC& cc, TypeId t) { return new_reg_for(cc, t); }
+  static void load(CC& cc, const Reg& r, TypeId t, const GpT& base, int32_t off, bool avx) { emit_load(cc, r, t, base, off, avx); }
+  static void store(CC& cc, const Reg& r, TypeId t, const GpT& base, int32_t off, bool avx) { emit_store(cc, r, t, base, off, avx); }
+  static void load_ptr(CC& cc, const GpT& d, const GpT& base, int32_t off) { cc.mov(d, x86::ptr(base, off, cc.register_size())); }
+};
+
+struct A64Inv {
+  typedef a64::Compiler CC;
+  typedef a64::Gp GpT;
+  static GpT new_ptr(CC& cc) { return cc.new_gp_ptr(); }
+  static Reg new_val(CC& cc, TypeId t) {
+    uint32_t sz = TypeUtils::size_of(t);
+    if (TypeUtils::is_int(t)) return sz <= 4 ? Reg(cc.new_gp32()) : Reg(cc.new_gp64());
+    if (sz <= 4) return cc.new_vec_s();
+    if (sz <= 8) return cc.new_vec_d();
+    return cc.new_vec_q();
+  }
+  static void load(CC& cc, const Reg& r, TypeId t, const GpT& base, int32_t off, bool) {
+    uint32_t sz = TypeUtils::size_of(t);
+    a64::Mem m = a64::ptr(base, off);
+    if (TypeUtils::is_int(t)) {
+      a64::Gp g = r.as<a64::Gp>();
+      bool sg = is_signed_int(t);
+      if (sz == 1) { if (sg) cc.ldrsb(g.w(), m); else cc.ldrb(g.w(), m); }
+      else if (sz == 2) { if (sg) cc.ldrsh(g.w(), m); else cc.ldrh(g.w(), m); }
+      else if (sz == 4) cc.ldr(g.w(), m);
+      else cc.ldr(g.x(), m);
+      return;
+    }
+    a64::Vec v = r.as<a64::Vec>();
+    if (sz <= 4) cc.ldr(v.s(), m);
+    else if (sz <= 8) cc.ldr(v.d(), m);
+    else cc.ldr(v.q(), m);
+  }
+  static void store(CC& cc, const Reg& r, TypeId t, const GpT& base, int32_t off, bool) {
+    uint32_t sz = TypeUtils::size_of(t);
+    a64::Mem m = a64::ptr(base, off);
+    if (TypeUtils::is_int(t)) {
+      a64::Gp g = r.as<a64::Gp>();
+      if (sz == 1) cc.strb(g.w(), m);
+      else if (sz == 2) cc.strh(g.w(), m);
+      else if (sz == 4) cc.str(g.w(), m);
+      else cc.str(g.x(), m);
+      return;
+    }
+    a64::Vec v = r.as<a64::Vec>();
+    if (sz <= 4) cc.str(v.s(), m);
+    else if (sz <= 8) cc.str(v.d(), m);
+    else cc.str(v.q(), m);
+  }
+  static void load_ptr(CC& cc, const GpT& d, const GpT& base, int32_t off) { cc.ldr(d, a64::ptr(base, off)); }
+};
+
+struct InvPlan {
+  const char* env; const char* conv; const char* cconv;
+  FuncSignature sig;
+  std::vector<InvVal> vals;          // argument values in order
+  std::vector<InvVal> rets;          // return pack values
+  bool target_reg = false;
+  bool avx = false, avx512 = false;
+  TypeId cret = TypeId::kVoid;       // what the caller function itself returns: a value loaded before the call (in[3072..]) and handed to ret()
+};
+
+struct InvOut {
+  Error err = Error::kOk;
+  std::string stage;
+  std::string json;                  // facts after finalize()
+};
+
+static std::string pack_json(const FuncValuePack& p) {
+  std::string o = "[";
+  for (uint32_t v = 0; v < Globals::kMaxValuePack; v++) {
+    if (!p[v]) break;
+    if (v) o += ",";
+    o += value_json(p[v]);
+  }
+  return o + "]";
+}
+
+template<typename T>
+static InvOut build_invoke(InvPlan& P, const Environment& env) {
+  InvOut R;
+  CodeHolder code;
+  code.init(env);
+  typename T::CC cc(&code);
+  FuncSignature csig(conv_by_name(P.cconv));
+  csig.set_ret(P.cret);
+  csig.add_arg(TypeId::kUIntPtr);
+  csig.add_arg(TypeId::kUIntPtr);
+  FuncNode* fn = nullptr;
+  R.err = cc.add_func_node(Out(fn), csig);
+  if (R.err != Error::kOk) { R.stage = "caller"; return R; }
+  std::vector<InvVal> crets;
+  {
+    uint32_t off = 0;
+    for (uint32_t v = 0; v < Globals::kMaxValuePack; v++) {
+      const FuncValue& fv = fn->detail().ret(v);
+      if (!fv) break;
+      InvVal x;
+      x.arg = 0; x.vi = v; x.off = off;
+      // the value has the declared width (a return value narrower than 32 bits is reported as a 32-bit integer by FuncDetail)
+      x.t = v == 0 && TypeUtils::size_of(P.cret) < 4 ? P.cret : fv.type_id();
+      crets.push_back(x);
+      off += TypeUtils::size_of(fv.type_id());
+    }
+  }
+  if (P.avx) fn->frame().set_avx_enabled();
+  if (P.avx512) fn->frame().set_avx512_enabled();
+  typename T::GpT in = T::new_ptr(cc), out = T::new_ptr(cc);
+  fn->set_arg(0, in);
+  fn->set_arg(1, out);
+  for (auto& v : P.vals) {
+    if (v.is_imm) continue;
+    v.reg = T::new_val(cc, v.t);
+    T::load(cc, v.reg, v.t, in, int32_t(64 * v.arg + v.off), P.avx);
+  }
+  for (auto& r : crets) {
+    r.reg = T::new_val(cc, r.t);
+    T::load(cc, r.reg, r.t, in, int32_t(3072 + r.off), P.avx);
+  }
+  Operand target = Imm(uint64_t(0x10203040));
+  if (P.target_reg) {
+    typename T::GpT tr = T::new_ptr(cc);
+    T::load_ptr(cc, tr, in, 4000);
+    target = tr;
+  }
+  InvokeNode* inv = nullptr;
+  R.err = cc.invoke_(Out(inv), target, P.sig);
+  if (R.err != Error::kOk || !inv) { R.stage = "invoke"; if (R.err == Error::kOk) R.err = Error::kInvalidState; return R; }
+  for (auto& v : P.vals) {
+    if (v.is_imm) inv->set_arg(v.arg, v.vi, Imm(int64_t(v.imm)));
+    else inv->set_arg(v.arg, v.vi, v.reg);
+  }
+  for (auto& r : P.rets) {
+    r.reg = T::new_val(cc, r.t);
+    inv->set_ret(r.vi, r.reg);
+  }
+  for (auto& r : P.rets) T::store(cc, r.reg, r.t, out, int32_t(r.off), P.avx);
+  for (auto& v : P.vals)
+    if (v.live && !v.is_imm) T::store(cc, v.reg, v.t, out, int32_t(64 + 64 * v.arg + v.off), P.avx);
+  if (crets.size() == 2) cc.ret(crets[0].reg, crets[1].reg);
+  else if (crets.size() == 1) cc.ret(crets[0].reg);
+  else cc.ret();
+  cc.end_func();
+  R.err = cc.finalize();
+  if (R.err != Error::kOk) { R.stage = "finalize"; return R; }
+
+  const FuncDetail& fd = inv->detail();
+  const FuncFrame& fr = fn->frame();
+  std::string o = ",\"args\":[";
+  for (uint32_t a = 0; a < fd.arg_count(); a++) { if (a) o += ","; o += pack_json(fd.arg_pack(a)); }
+  o += "],\"rets\":" + pack_json(fd.ret_pack());
+  o += ",\"cargs\":[" + pack_json(fn->detail().arg_pack(0)) + "," + pack_json(fn->detail().arg_pack(1)) + "]";
+  o += ",\"crets\":" + pack_json(fn->detail().ret_pack()) + ",\"crvals\":[";
+  for (size_t i = 0; i < crets.size(); i++) {
+    char b2[96];
+    snprintf(b2, sizeof b2, "%s{\"v\":%u,\"off\":%u,\"t\":%s}", i ? "," : "", crets[i].vi, crets[i].off, jstr(type_name(crets[i].t)).c_str());
+    o += b2;
+  }
+  o += "]";
+  char b[512];
+  snprintf(b, sizeof b, ",\"stack\":%u,\"pops\":%d,\"cstack\":%u,\"cpops\":%u,\"call_stack\":%u,\"call_align\":%u,\"final_align\":%u,\"da\":%d,"
+           "\"saved\":[%u,%u],\"pres\":[%u,%u,%u,%u],\"cpres\":[%u,%u],\"nsa\":%u,\"lso\":%u",
+           fd.arg_stack_size(), int(fd.has_flag(CallConvFlags::kCalleePopsStack)), fn->detail().arg_stack_size(), fr.callee_stack_cleanup(),
+           fr.call_stack_size(), fr.call_stack_alignment(), fr.final_stack_alignment(), int(fr.has_dynamic_alignment()),
+           fr.saved_regs(RegGroup::kGp), fr.saved_regs(RegGroup::kVec),
+           fd.call_conv().preserved_regs(RegGroup::kGp), fd.call_conv().preserved_regs(RegGroup::kVec), fd.call_conv().preserved_regs(RegGroup::kMask), fd.call_conv().preserved_regs(RegGroup::kExtra),
+           fn->detail().call_conv().preserved_regs(RegGroup::kGp), fn->detail().call_conv().preserved_regs(RegGroup::kVec), fd.call_conv().natural_stack_alignment(), fr.local_stack_offset());
+  o += b;
+  const CodeBuffer& cb = code.text_section()->buffer();
+  o += ",\"code\":\"" + hexstr(cb.data(), cb.size()) + "\"";
+  R.json = o;
+  return R;
+}
+
+int mode_invoke(const Args& args) {
+  std::string arch_s = args.str("arch", "a64");
+  uint64_t seed = args.u64("seed", 1);
+  uint64_t count = args.u64("count", 100);
+  uint64_t first = args.u64("first", 0);
+  int64_t only = args.has("only") ? int64_t(args.u64("only", 0)) : -1;
+  Arch arch = arch_s == "x64" ? Arch::kX64 : arch_s == "x86" ? Arch::kX86 : Arch::kAArch64;
+  bool is_x86 = arch != Arch::kAArch64;
+
+  struct Pair { const char* env; const char* conv; bool va_ok; };
+  std::vector<Pair> callees, callers;
+  if (arch == Arch::kX64) {
+    callees = {{"x64-linux", "sysv64", true}, {"x64-linux", "win64", true}, {"x64-win", "vectorcall", false}, {"x64-win", "cdecl", true},
+               {"x64-win", "sysv64", true}, {"x64-linux", "lightcall2", false}, {"x64-linux", "lightcall3", false}, {"x64-linux", "lightcall4", false}};
+    callers = {{"x64-linux", "sysv64", false}, {"x64-linux", "win64", false}, {"x64-win", "cdecl", false}, {"x64-win", "sysv64", false}, {"x64-win", "vectorcall", false}};
+  }
+  else if (arch == Arch::kX86) {
+    callees = {{"x86-linux", "cdecl", true}, {"x86-linux", "stdcall", false}, {"x86-linux", "fastcall", false}, {"x86-linux", "regparm1", false},
+               {"x86-linux", "regparm2", false}, {"x86-linux", "regparm3", false}, {"x86-win", "cdecl", true}, {"x86-win", "stdcall", false},
+               {"x86-win", "fastcall", false}, {"x86-win", "thiscall", false}, {"x86-win", "vectorcall", false},
+               {"x86-linux", "lightcall2", false}, {"x86-linux", "lightcall3", false}, {"x86-linux", "lightcall4", false}};
+    callers = {{"x86-linux", "cdecl", false}, {"x86-linux", "stdcall", false}, {"x86-linux", "fastcall", false}, {"x86-linux", "regparm3", false},
+               {"x86-win", "cdecl", false}, {"x86-win", "stdcall", false}, {"x86-win", "fastcall", false}, {"x86-win", "thiscall", false}};
+  }
+  else {
+    callees = {{"a64-linux", "cdecl", true}, {"a64-apple", "cdecl", true}, {"a64-linux", "lightcall2", false}, {"a64-apple", "lightcall2", false}};
+    callers = {{"a64-linux", "cdecl", false}, {"a64-apple", "cdecl", false}};
+  }
+
+  uint64_t cases = 0, built = 0, rejected = 0;
+  std::map<std::string, uint64_t> rejects;
+  Rng master(seed * 0x9E3779B97F4A7C15ull + 0x1C06);
+  for (uint64_t idx = first; idx < first + count; idx++) {
+    Rng rng = Rng(master.s ^ (idx * 0xD1B54A32D192ED03ull)).fork(idx);
+    if (only >= 0 && int64_t(idx) != only) continue;
+    cases++;
+    // the callee's convention walks the list (every convention is met whatever the count), the caller's is drawn among those of the same environment
+    Pair ce = callees[idx % callees.size()];
+    std::vector<Pair> same;
+    for (auto& c : callers) if (!strcmp(c.env, ce.env)) same.push_back(c);
+    Pair cr = same[rng.below(same.size())];
+    Environment env = env_by_name(ce.env);
+    bool light = strncmp(ce.conv, "lightcall", 9) == 0;
+
+    InvPlan P;
+    P.env = ce.env; P.conv = ce.conv; P.cconv = cr.conv;
+    P.avx = is_x86 && rng.chance(1, 3);
+    P.avx512 = P.avx && rng.chance(1, 3);
+    // AArch64: a64::Compiler::invoke() lowers every target operand to `blr`, which takes a register only (Imm/Label/Mem targets are refused)
+    P.target_reg = rng.chance(1, 3) || !is_x86;
+
+    std::vector<TypeId> pool = {TypeId::kInt8, TypeId::kUInt8, TypeId::kInt16, TypeId::kUInt16, TypeId::kInt32, TypeId::kUInt32,
+                                TypeId::kInt32, TypeId::kInt64, TypeId::kUInt64, TypeId::kInt64,
+                                TypeId::kFloat32, TypeId::kFloat64, TypeId::kFloat32, TypeId::kFloat64,
+                                TypeId::kInt32x4, TypeId::kFloat32x4, TypeId::kFloat64x2};
+    if (P.avx) { pool.push_back(TypeId::kFloat32x8); pool.push_back(TypeId::kInt32x8); }
+    if (P.avx512) { pool.push_back(TypeId::kFloat32x16); }
+    if (!is_x86) { pool.push_back(TypeId::kFloat32x2); pool.push_back(TypeId::kInt8x8); }
+    uint32_t nargs;
+    switch (rng.below(6)) {
+      case 0: nargs = uint32_t(rng.range(0, 3)); break;
+      case 1: case 2: nargs = uint32_t(rng.range(3, 9)); break;
+      case 3: case 4: nargs = uint32_t(rng.range(8, 14)); break;
+      default: nargs = uint32_t(rng.range(12, 20)); break;
+    }
+    uint32_t flavour = uint32_t(rng.below(5));     // 0,1 all kinds / 2 int heavy / 3 vec heavy / 4 narrow integers (packing on Apple)
+    FuncSignature sig(conv_by_name(ce.conv));
+    int va = -1;
+    if (ce.va_ok && nargs >= 2 && rng.chance(1, 5)) va = int(rng.range(1, std::min<uint32_t>(nargs - 1, 4)));
+    for (uint32_t i = 0; i < nargs; i++) {
+      TypeId t;
+      for (;;) {
+        t = pool[rng.below(pool.size())];
+        if (flavour == 2 && !TypeUtils::is_int(t) && rng.chance(3, 4)) continue;
+        if (flavour == 3 && TypeUtils::is_int(t) && rng.chance(3, 4)) continue;
+        if (flavour == 4 && !(TypeUtils::is_int(t) && TypeUtils::size_of(t) <= 4) && rng.chance(4, 5)) continue;
+        break;
+      }
+      if (va >= 0 && int(i) >= va) {
+        // default argument promotions of C
+        if (TypeUtils::is_int(t) && TypeUtils::size_of(t) < 4) t = is_signed_int(t) ? TypeId::kInt32 : TypeId::kUInt32;
+        if (t == TypeId::kFloat32) t = TypeId::kFloat64;
+        if (TypeUtils::size_of(t) > 16 || (!is_x86 && TypeUtils::is_vec(t) && TypeUtils::size_of(t) < 16)) t = TypeId::kFloat64;
+      }
+      sig.add_arg(t);
+    }
+    if (va >= 0) sig.set_va_index(uint32_t(va));
+    {
+      std::vector<TypeId> rets = {TypeId::kVoid, TypeId::kVoid, TypeId::kInt8, TypeId::kUInt8, TypeId::kInt16, TypeId::kUInt16, TypeId::kInt32, TypeId::kUInt32,
+                                  TypeId::kInt64, TypeId::kUInt64, TypeId::kInt64, TypeId::kFloat32, TypeId::kFloat64, TypeId::kFloat32x4, TypeId::kInt32x4};
+      if (P.avx) rets.push_back(TypeId::kFloat32x8);
+      if (!is_x86) rets.push_back(TypeId::kFloat32x2);
+      sig.set_ret(rets[rng.below(rets.size())]);
+    }
+    P.sig = sig;
+    {
+      static const TypeId crs[] = {TypeId::kVoid, TypeId::kVoid, TypeId::kInt32, TypeId::kUInt8, TypeId::kInt16, TypeId::kInt64, TypeId::kUInt64, TypeId::kFloat32, TypeId::kFloat64, TypeId::kFloat32x4};
+      P.cret = crs[rng.below(10)];
+    }
+
+    std::string head;
+    {
+      char b[512];
+      snprintf(b, sizeof b, "{\"i\":%llu,\"arch\":\"%s\",\"env\":\"%s\",\"conv\":\"%s\",\"cconv\":\"%s\",\"light\":%d,\"avx\":%d,\"avx512\":%d,\"treg\":%d,\"va\":%d,\"ret\":%s,\"cret\":%s,\"sig\":[",
+               (unsigned long long)idx, arch_s.c_str(), ce.env, ce.conv, cr.conv, int(light), int(P.avx), int(P.avx512), int(P.target_reg), va, jstr(type_name(sig.ret())).c_str(), jstr(type_name(P.cret)).c_str());
+      head = b;
+      for (uint32_t i = 0; i < nargs; i++) { if (i) head += ","; head += jstr(type_name(sig.arg(i))); }
+      head += "]";
+    }
+
+    FuncDetail fd;
+    Error err = fd.init(sig, env);
+    if (err != Error::kOk) {
+      rejected++;
+      rejects[std::string("detail:") + err_name(err)]++;
+      emit_line(head + ",\"err\":" + jstr(std::string("detail:") + err_name(err)) + "}");
+      continue;
+    }
+    // values: one per pack element FuncDetail produced (a 64-bit integer is two 32-bit values on x86-32)
+    bool unassigned = false;
+    for (uint32_t a = 0; a < fd.arg_count(); a++) {
+      uint32_t off = 0;
+      for (uint32_t v = 0; v < Globals::kMaxValuePack; v++) {
+        const FuncValue& fv = fd.arg(a, v);
+        if (!fv) break;
+        if (!fv.is_assigned()) unassigned = true;
+        InvVal x;
+        x.arg = a; x.vi = v; x.off = off; x.t = fv.type_id();
+        uint32_t sz = TypeUtils::size_of(x.t);
+        if (TypeUtils::is_int(x.t) && rng.chance(1, 8)) {
+          x.is_imm = true;
+          x.imm = rng.next();
+          switch (rng.below(4)) { case 0: x.imm &= 0xFF; break; case 1: x.imm = uint64_t(-int64_t(x.imm & 0xFFFF)); break; case 2: x.imm &= 0xFFFFFFFFull; break; default: break; }
+          // the immediate is written in the argument's type: what does not fit is not part of the value
+          if (sz == 1) x.imm = is_signed_int(x.t) ? uint64_t(int64_t(int8_t(x.imm))) : (x.imm & 0xFF);
+          else if (sz == 2) x.imm = is_signed_int(x.t) ? uint64_t(int64_t(int16_t(x.imm))) : (x.imm & 0xFFFF);
+          else if (sz == 4) x.imm = is_signed_int(x.t) ? uint64_t(int64_t(int32_t(x.imm))) : (x.imm & 0xFFFFFFFFull);
+        }
+        x.live = rng.chance(1, 3);
+        P.vals.push_back(x);
+        off += sz;
+      }
+    }
+    {
+      uint32_t off = 0;
+      for (uint32_t v = 0; v < Globals::kMaxValuePack; v++) {
+        const FuncValue& fv = fd.ret(v);
+        if (!fv) break;
+        InvVal x;
+        x.arg = 0; x.vi = v; x.off = off; x.t = fv.type_id();
+        P.rets.push_back(x);
+        off += TypeUtils::size_of(x.t);
+      }
+    }
+    head += ",\"vals\":[";
+    for (size_t i = 0; i < P.vals.size(); i++) {
+      const InvVal& x = P.vals[i];
+      char b[160];
+      snprintf(b, sizeof b, "%s{\"a\":%u,\"v\":%u,\"off\":%u,\"t\":%s,\"live\":%d", i ? "," : "", x.arg, x.vi, x.off, jstr(type_name(x.t)).c_str(), int(x.live && !x.is_imm));
+      head += b;
+      if (x.is_imm) { snprintf(b, sizeof b, ",\"imm\":\"%016llx\"", (unsigned long long)x.imm); head += b; }
+      head += "}";
+    }
+    head += "],\"rvals\":[";
+    for (size_t i = 0; i < P.rets.size(); i++) {
+      char b[96];
+      snprintf(b, sizeof b, "%s{\"v\":%u,\"off\":%u,\"t\":%s}", i ? "," : "", P.rets[i].vi, P.rets[i].off, jstr(type_name(P.rets[i].t)).c_str());
+      head += b;
+    }
+    head += "],\"unassigned\":" + std::to_string(int(unassigned));
+
+    InvOut R = is_x86 ? build_invoke<X86Inv>(P, env) : build_invoke<A64Inv>(P, env);
+    if (R.err != Error::kOk) {
+      rejected++;
+      std::string e = R.stage + ":" + err_name(R.err);
+      rejects[e]++;
+      // what FuncDetail says about the signature goes with the refusal (Python keys refusals by feature)
+      std::string o = ",\"args\":[";
+      for (uint32_t a = 0; a < fd.arg_count(); a++) { if (a) o += ","; o += pack_json(fd.arg_pack(a)); }
+      o += "],\"rets\":" + pack_json(fd.ret_pack());
+      emit_line(head + o + ",\"err\":" + jstr(e) + "}");
+      continue;
+    }
+    built++;
+    emit_line(head + R.json + "}");
+  }
+  std::string o = "{\"summary\":1,\"mode\":\"invoke\",\"arch\":" + jstr(arch_s) + ",\"cases\":" + std::to_string(cases) + ",\"built\":" + std::to_string(built) +
+                  ",\"rejected\":" + std::to_string(rejected) + ",\"rejects\":{";
+  bool f = true;
+  for (auto& kv : rejects) { if (!f) o += ","; f = false; o += jstr(kv.first) + ":" + std::to_string(kv.second); }
+  o += "},\"violations\":[]}";
   emit_line(o);
   return 0;
 }
